@@ -1076,6 +1076,34 @@ const STUB_CONC: &[&str] = &[
 ];
 const FK_CONC: &[&str] = &["clock_jump", "resume_inside_sink_write", "thread_migration", "entropy_reseed_per_thread"];
 
+// ================================================================ C20
+
+fn c20_scen(t: Tier) -> Vec<(&'static str, u64)> {
+    vec![("mux-valid", t.pick(3_000, 60_000)), ("mux-invalid", t.pick(4_000, 80_000)), ("validate", t.pick(2_000, 30_000)), ("info", t.pick(2_000, 30_000))]
+}
+fn c20_gen(sc: &str, rng: &mut Rng, _t: Tier, _i: u64) -> AnyCase {
+    AnyCase::Cli(crate::cli::gen(rng, sc))
+}
+fn c20_eval(sc: &str, case: &AnyCase, st: &mut RunStats, _t: Tier) -> Vec<Violation> {
+    match case {
+        AnyCase::Cli(c) => {
+            let mut h = Hasher64::new();
+            h.str(sc);
+            h.str(&format!("{:?}", c));
+            crate::cli::eval(c, st, h.finish())
+        }
+        _ => panic!("harness: expected a CLI case"),
+    }
+}
+
+const STUB_CLI: &[&str] = &[
+    "file-system state of a per-run scratch directory (inputs: valid hex in four spellings, odd length, non-hex, empty, whitespace only, non-UTF-8, directory, missing, dangling symlink, symlink loop; output: fresh, existing, directory, missing parent, /dev/full)",
+    "argv (codec names and aliases in any case, dimensions, fps, audio codec/rate/channels, title, language, --json, --verbose, --no-progress, --dry-run, --fragmented)",
+    "process environment (cleared; LANG=C)",
+];
+const REAL_CLI: &[&str] = &["the muxide binary built from /repo (src/bin/muxide.rs + library) with overflow-checks and debug-assertions, run as a child process", "kernel file-system objects (/dev/full -> ENOSPC, directory -> EISDIR, missing parent -> ENOENT, symlink loop -> ELOOP)", "the muxide library in-process as the reference"];
+const FK_CLI: &[&str] = &["output_dev_full(ENOSPC)", "output_is_directory(EISDIR)", "output_parent_missing(ENOENT)", "input_missing(ENOENT)", "input_is_directory(EISDIR)", "input_dangling_symlink(ENOENT)", "input_symlink_loop(ELOOP)", "input_non_utf8(InvalidData)", "info_truncated_file", "info_flipped_stored_byte", "info_random_contents"];
+
 // ================================================================ registry
 
 macro_rules! def {
@@ -1127,6 +1155,9 @@ pub static ALL: &[CheckDef] = &[
     CheckDef { id: "C17", level: "exploration", scenarios: c17_scen, gen: c17_gen, eval: c17_eval,
         rule: "scenario 'schedules': 1..8 muxer scripts x 1..16 real threads; a seeded scheduler decides at every API call and every sink write which thread continues and which muxer it takes (muxers migrate between threads by value), the wall clock jumps between decisions, every thread gets its own entropy seed, sink types vary; every return value and the final bytes of every script must equal its solo reference run; the library may read the clock only in with_current_time(); scenario 'equivalent-paths': pairs of histories that differ by one equivalent API path must give identical files; non-trivial = schedule with >= 2 decisions / pair executed; distinct = distinct (muxers, threads, sink kinds, first 64 decisions) resp. (transformation, abstract trace); states = distinct complete schedules",
         fault_kinds: FK_CONC, real: REAL_LIB, stubbed: STUB_CONC, assumptions: ASSUME_READER, exhaustive_quick: false, slow_ok: false },
+    CheckDef { id: "C20", level: "exploration", scenarios: c20_scen, gen: c20_gen, eval: c20_eval,
+        rule: "the real binary as a child process per run in a generated directory; three-valued oracle: MustSucceed (documented-valid parameters, readable valid inputs, writable output) => exit 0, output byte-identical to the in-process library run, reported frame counts equal the inputs; MustFail (input missing/unreadable/invalid, parameter missing or out of range, output not creatable/writable incl. ENOSPC, frame refused by the library) => exit != 0 and no completion report on stdout/stderr; Either for audio-only, --fragmented, --dry-run, --audio-codec none; validate: verdict (json / text / report file) valid iff every given input exists and is non-empty even-length hex; info: exact top-level box list for library-produced progressive and fragmented files, termination on truncated / corrupted / random contents; non-trivial = a judged (not Either) run; distinct = distinct (command, expectation, input kinds, output kind, codecs, flags)",
+        fault_kinds: FK_CLI, real: REAL_CLI, stubbed: STUB_CLI, assumptions: ASSUME_READER, exhaustive_quick: false, slow_ok: false },
     def!("C15", "exploration", c15_scen, c15_gen, c15_eval,
         "A/V histories with adversarial submission order (all audio last/first, alternation, bursts, equal timestamps); offsets increase within each track, and for non-reordered streams global storage order = stable merge by (tick timestamp, video first); non-trivial = finished with audio and >= 2 video samples; distinct = distinct abstract trace",
         &[], STUB_PROG, false),
